@@ -65,7 +65,8 @@ def reread_sites(root):
                         tag = l[p + 3:e]
                         # gofmt puts a marker that led a declaration (or followed a `;`) on its own line / at the end of
                         # the previous line: the marked statement is then on the next line
-                        midline = tag.split(":", 1)[-1] in ("imm-nested-sel", "imm-local-copy", "ptralias-write", "ptralias-inc", "ptralias-method", "ptralias-closure")
+                        midline = tag.split(":", 1)[-1] in ("imm-nested-sel", "imm-local-copy", "ptralias-write", "ptralias-inc", "ptralias-method", "ptralias-closure",
+                                                             "sibling-t-alias-write", "pkgo-promoted-method", "pkgo-promoted-method-value")
                         alone = not l[:p].strip() and not l[e + 2:].strip()
                         line = i + 1 if (alone or (midline and not l[e + 2:].strip())) else i
                         sites[tag.split(":")[0]] = (rel, line, tag.split(":", 1)[1] if ":" in tag else "")
